@@ -72,7 +72,11 @@ func c05GetDirected(c *core.Ctx) {
 	if k > 0 {
 		cons.Commit() // Close (buffer) waits for uncommitted reads: keep the proviso
 	}
-	expected := k // the value the blocked Get would return
+	// the value the blocked Get would return: usually its position, in a quarter of the scenarios nil (a legal value)
+	var expected interface{} = k
+	if c.Rng.IntN(4) == 0 {
+		expected = nil
+	}
 
 	gate := core.NewGate()
 	var armed atomic.Bool
@@ -182,7 +186,7 @@ func c05GetDirected(c *core.Ctx) {
 		fire(false)
 	}
 	armed.Store(false)
-	desc := fmt.Sprintf("placement=%s events=%v position=%d cooldown=%s window=%v", placement, events, expected, cooldown, window)
+	desc := fmt.Sprintf("placement=%s events=%v position=%d value=%v cooldown=%s window=%v", placement, events, k, expected, cooldown, window)
 	r, _, got := core.AwaitChan(out, c05Bound)
 	if !got {
 		dump := core.DumpAll()
@@ -206,7 +210,7 @@ func c05GetDirected(c *core.Ctx) {
 		if !has("put") {
 			c.Violate("get-invented", "Get returned %v although nothing was put; %s", r.v, desc)
 		} else if r.v != expected {
-			c.Violate("get-wrong-value", "Get returned %v, want %d; %s", r.v, expected, desc)
+			c.Violate("get-wrong-value", "Get returned %v, want %v; %s", r.v, expected, desc)
 		}
 	} else {
 		if len(events) == 1 && has("put") {
@@ -242,10 +246,10 @@ func c05GetDirected(c *core.Ctx) {
 		r2, _, got2 := core.AwaitChan(out2, c05Bound)
 		cancel2()
 		if !got2 {
-			c.Violate("get-lost-wakeup", "follow-up Get blocked although value %d is in the buffer; %s", expected, desc)
+			c.Violate("get-lost-wakeup", "follow-up Get blocked although value %v is in the buffer; %s", expected, desc)
 			c.SetDump(core.DumpAll())
 		} else if r2.err != nil || r2.v != expected {
-			c.Violate("failed-get-consumed", "after a failed Get the next Get returned (%v, %v), want %d; %s", r2.v, r2.err, expected, desc)
+			c.Violate("failed-get-consumed", "after a failed Get the next Get returned (%v, %v), want %v; %s", r2.v, r2.err, expected, desc)
 		}
 	}
 	if window {
